@@ -14,7 +14,7 @@ for d in $DIRS; do
   D=$(mktemp -d /tmp/sr.XXXXXX)
   git -C /repo archive HEAD | tar -x -C $D
   if ! (cd $D && (git apply --unsafe-paths --directory=$D $d/patch.diff 2>/dev/null || patch -p1 -s < $d/patch.diff >/dev/null 2>&1)); then echo "$id: PATCH DOES NOT APPLY"; bad=$((bad+1)); rm -rf $D; continue; fi
-  out=$(VERIF_DIR=$V VERIF_REPO=$D $V/bin/vcheck run $chk 2>&1)
+  out=$(VERIF_DIR=$V VERIF_REPO=$D VERIF_EVIDENCE_DIR=$D/.evidence $V/bin/vcheck run $chk 2>&1)
   if echo "$out" | grep -q "^VIOLATION property=$chk"; then echo "$id: caught by $chk ($(echo "$out" | grep -m1 '  key:' | cut -c1-110))"; ok=$((ok+1)); else echo "$id: NOT CAUGHT by $chk ($(echo "$out" | tail -1 | cut -c1-160))"; bad=$((bad+1)); fi
   rm -rf $D
 done
